@@ -86,7 +86,7 @@ struct sample {
 static struct sample samples[3];
 static int nsamples;
 
-static long st_real_validated, st_real_mismatch;
+static long st_real_validated, st_real_mismatch, st_free_validated, st_free_mismatch;
 static long st_exec, st_points, st_outcome[OUT_NOUT], st_infra, st_crash, st_replay_checked, st_replay_mismatch,
     st_configs_done, st_capped_configs, st_unconfirmed, st_trace_overflow;
 static int st_max_trace;
@@ -141,6 +141,7 @@ static int run_one(long cfg, const uint8_t *prefix, int plen, int verbose)
   S->log[0] = 0;
   S->cfgdesc[0] = 0;
   S->emulated_exec_used = 0;
+  S->free_run_ok = 0;
   S->crashkey[0] = 0;
   S->child_exit_called = 0;
 
@@ -313,6 +314,24 @@ static void explore_config(long cfg)
                 (unsigned long long) S->obs_hash, oc, S->outcome);
       }
     }
+    /* differential validation of serialised scheduling and the virtual clock: the same default schedule, free-running */
+    if (nd.len == 0 && H->validate_free_stride && S->free_run_ok && S->outcome == OUT_DONE && S->nviol == 0 && (cfg % H->validate_free_stride) == 0 &&
+        !(split && g_shard != 0)) {
+      uint64_t h = S->obs_hash;
+      int ok = 0;
+      for (int attempt = 0; attempt < 3 && !ok; attempt++) {
+        S->force_passthru = 1;
+        run_one(cfg, NULL, 0, 0);
+        S->force_passthru = 0;
+        ok = S->obs_hash == h && S->outcome == OUT_DONE;
+      }
+      st_free_validated++;
+      if (!ok) {
+        st_free_mismatch++;
+        fprintf(hx_err(), "[hx %s] stepped and free-running executions disagree cfg=%ld (obs %llx vs %llx, outcome %d): %s\n", H->prop, cfg, (unsigned long long) h,
+                (unsigned long long) S->obs_hash, S->outcome, S->cfgdesc);
+      }
+    }
     if (want_sample) {
       /* run the same choice sequence again with logging on, to have something readable in the evidence */
       uint8_t full[VK_MAX_TRACE];
@@ -457,9 +476,9 @@ static void write_stats(const char *path, long ncfg, long first, long step, doub
           H->prop, H->name, hx_tier ? "thorough" : "quick", hx_worker_id, ncfg, first, step);
   fprintf(f, "\"configs_done\":%ld,\"capped_configs\":%ld,\"executions\":%ld,\"choice_points\":%ld,\"max_trace\":%d,"
              "\"distinct_observations\":%ld,\"infra_errors\":%ld,\"crashes\":%ld,\"replay_checked\":%ld,\"replay_mismatch\":%ld,"
-             "\"real_exec_validated\":%ld,\"real_exec_mismatch\":%ld,\"trace_overflow\":%ld,\"viol_overflow\":%ld,\"wall_s\":%.3f,\"bfs_states\":%ld,\"bfs_max_depth\":%ld,\"deadline_hit\":%s,",
+             "\"real_exec_validated\":%ld,\"real_exec_mismatch\":%ld,\"free_run_validated\":%ld,\"free_run_mismatch\":%ld,\"trace_overflow\":%ld,\"viol_overflow\":%ld,\"wall_s\":%.3f,\"bfs_states\":%ld,\"bfs_max_depth\":%ld,\"deadline_hit\":%s,",
           st_configs_done, st_capped_configs, st_exec, st_points, st_max_trace, obs_distinct, st_infra, st_crash,
-          st_replay_checked, st_replay_mismatch, st_real_validated, st_real_mismatch, st_trace_overflow, viol_overflow, wall, st_bfs_states, st_bfs_max_depth,
+          st_replay_checked, st_replay_mismatch, st_real_validated, st_real_mismatch, st_free_validated, st_free_mismatch, st_trace_overflow, viol_overflow, wall, st_bfs_states, st_bfs_max_depth,
           (t_deadline > 0 && nowsec() > t_deadline) ? "true" : "false");
   fprintf(f, "\"outcomes\":{\"done\":%ld,\"hang\":%ld,\"infra\":%ld,\"crash\":%ld},", st_outcome[OUT_DONE], st_outcome[OUT_HANG],
           st_outcome[OUT_INFRA], st_outcome[OUT_CRASH]);
@@ -633,6 +652,8 @@ int main(int argc, char **argv)
     int out_fd = fcntl(1, F_DUPFD_CLOEXEC, HARNESS_FD_BASE + 600);
     hx_worker_prepare();
     if (H->worker_init) H->worker_init(hx_tier);
+    S->force_passthru = getenv("HX_PASSTHRU") != NULL;
+    S->force_real_exec = getenv("HX_REAL_EXEC") != NULL;
     run_one(cfg, ch, n, 1);
     dup2(out_fd, 1);
     printf("config: %s\n", S->cfgdesc);
